@@ -1,9 +1,17 @@
 //@file kiki/src/data/validated_file.rs mod=crate::data::validated_file
+//@[ imports
+use vstd::prelude::*;
+use crate::vx_gram::*;
+pub assume_specification[ <File as Clone>::clone ](x: &File) -> (r: File) ensures r == *x;
+//@]
 use crate::data::*;
 
 use std::collections::HashSet;
 use std::fmt::{self, Display, Formatter};
 
+//@[ T8: derived Clone kept external; structural contract assumed
+#[verifier::external_derive(Clone)]
+//@]
 #[derive(Debug, Clone)]
 pub struct File {
     pub start: String,
@@ -147,7 +155,11 @@ pub enum Nonterminal {
 }
 
 impl Nonterminal {
-    pub fn name(&self) -> &str {
+    pub fn name(&self) -> /*@[*/(r: /*@]*/&str/*@[*/)/*@]*/
+        //@[ C10 C17 Nonterminal::name
+        ensures r@ == nt_name(*self),
+        //@]
+    {
         match self {
             Nonterminal::Struct(s) => &s.name.name,
             Nonterminal::Enum(e) => &e.name.name,
